@@ -41,6 +41,7 @@ static int NW = 16;
 static long NCASES = -1;
 static long ENUM_LIMIT = 200000000L;
 static void *KASE;
+static int g_use_kase, g_no_kase;
 
 static void lab_add(wstate_t *s, const char *l, int dynamic) {
     int i;
@@ -89,17 +90,35 @@ static void write_case_file(const char *path, const cs_t *cs, const char *key, c
     if (!f) return;
     fprintf(f, "module %s\nphase %d\nchoices", M->name, CFG.phase);
     for (i = 0; i < cs->n; i++) fprintf(f, " %u", cs->val[i]);
+    fprintf(f, "\nkase ");
+    for (i = 0; i < (int)M->case_size; i++) fprintf(f, "%02x", ((unsigned char *)KASE)[i]);
     fprintf(f, "\n# key: %s\n# detail: %s\n# case: %s\n", key, detail, desc);
     fclose(f);
 }
 
+static unsigned char *g_kase_in; /* decoded case read from a replay file (preferred over choices) */
+static size_t g_kase_in_n;
 static int read_case_file(const char *path, cs_t *cs, int *phase) {
     FILE *f = fopen(path, "r");
-    char line[16384];
+    static char line[70000];
     if (!f) return -1;
     cs->n_in = 0;
     *phase = 1;
+    g_kase_in_n = 0;
     while (fgets(line, sizeof line, f)) {
+        if (strncmp(line, "kase ", 5) == 0) {
+            const char *p = line + 5;
+            size_t n = 0;
+            free(g_kase_in);
+            g_kase_in = calloc(1, strlen(p) / 2 + 1);
+            while (p[0] && p[1] && p[0] != '\n') {
+                unsigned v;
+                if (sscanf(p, "%2x", &v) != 1) break;
+                g_kase_in[n++] = (unsigned char)v;
+                p += 2;
+            }
+            g_kase_in_n = n;
+        }
         if (strncmp(line, "phase ", 6) == 0) *phase = atoi(line + 6);
         if (strncmp(line, "choices", 7) == 0) {
             char *p = line + 7, *e;
@@ -120,7 +139,11 @@ static void run_one(cs_t *cs, res_t *r, char *desc, size_t dn, int *valid) {
     memset(r, 0, sizeof *r);
     r->hash = CS_HASH_INIT;
     memset(KASE, 0, M->case_size);
-    *valid = M->gen(cs, KASE, &CFG);
+    if (g_use_kase && g_kase_in_n) {
+        memcpy(KASE, g_kase_in, g_kase_in_n < M->case_size ? g_kase_in_n : M->case_size);
+        *valid = 1;
+    } else
+        *valid = M->gen(cs, KASE, &CFG);
     if (!*valid) return;
     M->exec(KASE, r, &CFG);
     if (desc) M->describe(KASE, desc, dn);
@@ -161,7 +184,9 @@ static void account(wstate_t *s, res_t *r, cs_t *cs, uint64_t idx, int vfd) {
             k += json_escape_buf(line + k, sizeof line - (size_t)k, desc);
             k += snprintf(line + k, sizeof line - (size_t)k, ",\"phase\":%d,\"idx\":%llu,\"choices\":[", CFG.phase, (unsigned long long)idx);
             for (j2 = 0; j2 < cs->n && k < (int)sizeof line - 32; j2++) k += snprintf(line + k, sizeof line - (size_t)k, "%s%u", j2 ? "," : "", cs->val[j2]);
-            k += snprintf(line + k, sizeof line - (size_t)k, "]}\n");
+            k += snprintf(line + k, sizeof line - (size_t)k, "],\"kase\":\"");
+            for (j2 = 0; j2 < (int)M->case_size && k < (int)sizeof line - 8; j2++) k += snprintf(line + k, sizeof line - (size_t)k, "%02x", ((unsigned char *)KASE)[j2]);
+            k += snprintf(line + k, sizeof line - (size_t)k, "\"}\n");
             if (write(vfd, line, (size_t)k)) {}
         }
     }
@@ -417,6 +442,7 @@ static int do_replay(const char *file) {
     int phase, code;
     memset(&cs, 0, sizeof cs);
     if (read_case_file(file, &cs, &phase) < 0) { fprintf(stderr, "cannot read %s\n", file); return 2; }
+    g_use_kase = !g_no_kase;
     code = run_isolated(&cs, phase, &o);
     printf("REPLAY module=%s result=%s\n", M->name, code == 0 ? "ok" : code == 1 ? "violation" : code == 2 ? "crash" : "invalid");
     if (code == 1 || code == 2) printf("key: %s\ndetail: %s\n", o.key, o.detail);
@@ -485,6 +511,15 @@ static int do_shrink(const char *file, const char *outfile) {
         rec.n = best.n_in;
         memcpy(rec.val, best.in, sizeof(uint32_t) * (size_t)best.n_in);
         CFG.phase = phase;
+        {
+            cs_t g;
+            memset(&g, 0, sizeof g);
+            g.n_in = best.n_in;
+            memcpy(g.in, best.in, sizeof(uint32_t) * (size_t)best.n_in);
+            cs_begin(&g, CS_REPLAY, CFG.seed, 0);
+            memset(KASE, 0, M->case_size);
+            M->gen(&g, KASE, &CFG);
+        }
         write_case_file(outfile, &rec, ob.key, ob.detail, ob.desc);
     }
     printf("SHRINK: key=%s tries=%d len=%d -> %s\n", want, tries, best.n_in, outfile);
@@ -499,7 +534,7 @@ static int do_list(void) {
 
 int main(int argc, char **argv) {
     int i;
-    const char *modname = NULL, *replay = NULL, *shrink = NULL, *shrink_out = "shrunk.case", *writecase = NULL;
+    const char *upgrade = NULL, *modname = NULL, *replay = NULL, *shrink = NULL, *shrink_out = "shrunk.case", *writecase = NULL;
     CFG.seed = 1;
     CFG.libcfg = "plain";
     for (i = 1; i < argc; i++) {
@@ -516,6 +551,8 @@ int main(int argc, char **argv) {
         else if (!strcmp(argv[i], "--shrink") && i + 1 < argc) shrink = argv[++i];
         else if (!strcmp(argv[i], "--shrink-out") && i + 1 < argc) shrink_out = argv[++i];
         else if (!strcmp(argv[i], "--write-case") && i + 1 < argc) writecase = argv[++i];
+        else if (!strcmp(argv[i], "--no-kase")) g_no_kase = 1;
+        else if (!strcmp(argv[i], "--upgrade") && i + 1 < argc) upgrade = argv[++i];
         else if (!strcmp(argv[i], "--list")) return do_list();
         else { fprintf(stderr, "unknown arg %s\n", argv[i]); return 2; }
     }
@@ -527,6 +564,22 @@ int main(int argc, char **argv) {
     if (NW > MAXW) NW = MAXW;
     if (NCASES < 0) NCASES = M->random_cases[CFG.tier];
     KASE = calloc(1, M->case_size + 64);
+    if (upgrade) {
+        /* print the decoded case of a choices-only case file as hex */
+        cs_t cs;
+        int phase;
+        size_t k;
+        memset(&cs, 0, sizeof cs);
+        if (read_case_file(upgrade, &cs, &phase) < 0) return 2;
+        CFG.phase = phase;
+        cs_begin(&cs, CS_REPLAY, CFG.seed, 0);
+        memset(KASE, 0, M->case_size);
+        M->gen(&cs, KASE, &CFG);
+        printf("kase ");
+        for (k = 0; k < M->case_size; k++) printf("%02x", ((unsigned char *)KASE)[k]);
+        printf("\n");
+        return 0;
+    }
     if (replay) return do_replay(replay);
     if (shrink) return do_shrink(shrink, shrink_out);
     mkdir(OUTDIR, 0755);
